@@ -20,7 +20,8 @@ meta["lead_verification"] = {
     "ran": "tools/try_seed.sh (scratch worktree of /repo HEAD + git apply patch.diff; demo.py on clean and changed tree; ./check %s --tier %s with VERIF_REPO=<worktree>)" % (prop, tier),
     "demo_clean": next((l for l in lines if l.startswith("demo on clean")), None),
     "demo_changed": next((l for l in lines if l.startswith("demo on changed")), None),
-    "check_output": [l for l in lines if not l.startswith("demo on")],
+    "tests_with_change": next((l for l in lines if l.startswith("tests with change")), None),
+    "check_output": [l for l in lines if not l.startswith("demo on") and not l.startswith("tests with change")],
     "detected": any(l.startswith("VIOLATION") for l in lines),
 }
 json.dump(meta, open(os.path.join(dst, "meta.json"), "w"), indent=1)
